@@ -39,11 +39,14 @@ struct SpinLock
 {
 public:
 	void lock() {
+		EVENTPP_VERIF_POINT("sl.lock");
 		while(locked.test_and_set(std::memory_order_acquire)) {
+			EVENTPP_VERIF_POINT("spin.wait");
 		}
 	}
 
 	void unlock() {
+		EVENTPP_VERIF_POINT("sl.unlock");
 		locked.clear(std::memory_order_release);
 	}
 	
